@@ -55,7 +55,7 @@ theorem value_number (tok rest : List UInt8) (hn : isNumber tok = true) (hs : St
 
 theorem stringValue_render (items : List Item) (rest : List UInt8) (hw : ∀ i ∈ items, i.wf true = true) :
     stringValue (renderAll items ++ 34 :: rest) = .ok (sem items, rest) := by
-  have hw' : ∀ i ∈ items, WF i := fun i hi => GoJson.Props.C17.wf_strict_imp i (hw i hi)
+  have hw' : ∀ i ∈ items, WF i := hw
   unfold stringValue
   rw [scanBody_render items rest hw']
   simp only
